@@ -1,0 +1,10 @@
+//go:build verif
+
+package storage
+
+// History store (properties C09, C06). lookup is reached with a limit taken from a client's `last=` option and,
+// through OnSurvey, from a query sent by another broker: safety for ANY query - no panic, and no allocation sized
+// by that number.
+
+//@ verify (*SSD).lookup pre=pre_SSD_lookup props=C09 makebound=4096
+func pre_SSD_lookup(s *SSD) bool { return s != nil && s.db != nil }
